@@ -233,7 +233,7 @@ def check_allocations(res: Result, lcs: List[LaunchCtx], detectors: Dict[str, Se
       g, cap = bounds[0][2]
       ctext = cap_text(lc, cap)
       # O2: exactness  G == n
-      if "O2" in want:
+      if "O2" in want or "O2loose" in want:
         diff = g - affine(al.n)
         perrow = any(a.op == "lv" for a in g.coef)
         if perrow:
@@ -242,6 +242,8 @@ def check_allocations(res: Result, lcs: List[LaunchCtx], detectors: Dict[str, Se
           res.ob(rows_ok, construct + "|O2")
         elif diff.is_const():
           okx = diff.const == 0
+          if "O2loose" in want and "O2" not in want and diff.const > 0:
+            okx = True  # strictness is C16's concern; memory safety only needs the guard not to be loose
           if diff.const > 0:
             msg = f"block of {show(al.n)} rows from counter {al.counter} is dropped unless slot + {g} <= {ctext}: a block that fits exactly (slot + {show(al.n)} == {ctext}) is silently lost while the counter never exceeds the capacity"
           else:
